@@ -378,6 +378,18 @@ func (g *TxGen) genKind(kind int, now int64) *types.Transaction {
 			return g.genKind(kIssueAsset, now)
 		}
 		from := g.user()
+		if g.d(4) != 0 {
+			// usually somebody who was issued or sent some of this asset (a transfer by a non-holder fails at once)
+			var holders []*keyInfo
+			for _, u := range g.Net.Users {
+				if as.Holders[u.Addr] {
+					holders = append(holders, u)
+				}
+			}
+			if len(holders) > 0 {
+				from = holders[g.d(len(holders))]
+			}
+		}
 		var to common.Address
 		switch g.d(6) {
 		case 0:
